@@ -6,6 +6,7 @@ import (
 	"io"
 	"net/http"
 	"net/url"
+	"strings"
 
 	"github.com/gookit/rux"
 )
@@ -17,7 +18,7 @@ import (
 // obs : ((log (wh c)|(w bytes)|(f) ...) (obs (status length) ...)) | (panic)
 
 var c08Codes = []int{-1, 0, 100, 200, 200, 201, 204, 301, 404, 404, 500, 599}
-var c08Bytes = []string{"", "a", "hello", "x\n", "0123456789", "é", "<b>"}
+var c08Bytes = []string{"", "a", "hello", "x\n", "0123456789", "é", "<b>", strings.Repeat("0123456789abcdef", 40), strings.Repeat("z", 5000)}
 
 func c08Op(r *Rng) Sx {
 	if r.Chance(1, 12) {
@@ -69,7 +70,7 @@ func c08Gen(r *Rng, tier string, i int) Sx {
 	}
 	var script []Sx
 	for k := r.Intn(4); k > 0; k-- {
-		script = append(script, I(r.Intn(6)))
+		script = append(script, I(r.Pick2([]int{0, 1, 2, 3, 4, 5, 0, 1, 2, 3, 4, 5, 600, 639, 4999})))
 	}
 	var hl []Sx
 	for _, h := range hs {
@@ -91,7 +92,11 @@ func c08Gen(r *Rng, tier string, i int) Sx {
 func wopRun(c *rux.Context, op Sx, obs *[]Sx) {
 	switch op.Head() {
 	case "st":
-		c.SetStatus(op.List[1].Int())
+		if n := op.List[1].Int(); (n+len(*obs))%2 == 0 {
+			c.SetStatus(n)
+		} else {
+			c.SetStatusCode(n) // its alias
+		}
 	case "hd":
 		c.SetHeader(op.List[1].Str(), op.List[2].Str())
 	case "wr":
@@ -109,7 +114,12 @@ func wopRun(c *rux.Context, op Sx, obs *[]Sx) {
 			_, _ = io.WriteString(c.Resp, string(b))
 		}
 	case "fl":
-		c.Resp.(http.Flusher).Flush()
+		// through the Flusher interface, or through net/http's ResponseController (which prefers FlushError / Unwrap)
+		if (int(c.Length())+len(*obs))%2 == 0 {
+			c.Resp.(http.Flusher).Flush()
+		} else {
+			_ = http.NewResponseController(c.Resp).Flush()
+		}
 	case "he":
 		http.Error(c.Resp, string(op.List[1].Bytes()), op.List[2].Int())
 	case "rd":
